@@ -30,7 +30,7 @@ import math
 import random
 from collections import Counter
 
-from .. import gen, impl, ser
+from .. import gen, impl, oracle, ser
 
 ID = "C07"
 LEVEL = "proof"
@@ -737,6 +737,31 @@ def array_chunk(seed, chunk, n_arrays, tier):
                             errs.append("there-and-back changes the stored values")
                 if errs:
                     fails.append(("; ".join(errs), meta, sorted(trig), None))
+                elif fam == "merge" and "ok" in res[1] and rng.random() < 0.35 and \
+                        not (window_match(x, want) or window_match(x, shape)):
+                    # call history: the conjugate of x, taken AFTER x itself went through reshape (index
+                    # objects and cached plans derive from ones already seen), makes the same trip
+                    try:
+                        xc = x.conj()
+                        xcc = canon(xc)
+                        yc = xc.reshape(t)
+                        zc = yc.reshape(shape)
+                        stats["conj_history_trips"] += 1
+                        e2 = []
+                        if yc.ndim != len(want) or any(a > b for a, b in zip(yc.shape, want)):
+                            e2.append(f"shape {yc.shape} vs requested {want}")
+                        if exact_norm2(yc) != exact_norm2(xc) or magnitudes(yc) != magnitudes(xc):
+                            e2.append("content changed")
+                        if canon(zc) != xcc:
+                            e2.append("there-and-back does not restore the original exactly")
+                        if oracle.py_valid(yc):
+                            e2.append("reshaped array invalid: " + str(oracle.py_valid(yc)))
+                        if e2:
+                            fails.append(("reshape of x.conj() after x itself was reshaped: " + "; ".join(e2),
+                                          dict(meta, history="conj-after-reshape"), sorted(trig), None))
+                    except Exception as e:  # noqa
+                        fails.append((f"reshape of x.conj() after x itself was reshaped raises {type(e).__name__}: {e}",
+                                      dict(meta, history="conj-after-reshape"), sorted(trig | {"raises"}), None))
                 if len(samples) < 2 and fam == "merge":
                     samples.append(meta)
     finally:
